@@ -127,8 +127,9 @@ func Evaluate(s sink.Sink, prop string, r *scen.Run, completed, sample bool) {
 	case !completed:
 		s.Inconclusive("scenario did not complete: " + r.Failed)
 	case r.SettleErr[0] != nil || r.SettleErr[1] != nil:
-		// C03 judges payouts after settlement, never whether a particular Settle call succeeded
-		s.Inconclusive(fmt.Sprintf("a Settle call failed: %v / %v", r.SettleErr[0], r.SettleErr[1]))
+		// Two honest parties, a healthy ledger, nothing timed out, every retry failed: the
+		// settlement the statement is about cannot be carried out.
+		problems = append(problems, fmt.Sprintf("an honest Settle call keeps failing (retried 4 times, nothing timed out): A: %v / B: %v", r.SettleErr[0], r.SettleErr[1]))
 		if os.Getenv("C03_DEBUG") != "" {
 			fmt.Printf("SETTLE FAILED %+v\n%s\n%s\n", sc, strings.Join(r.Log, "\n"), strings.Join(callStrs, "\n"))
 		}
@@ -193,6 +194,8 @@ func Evaluate(s sink.Sink, prop string, r *scen.Run, completed, sample bool) {
 			class = "honest-request-never-answered"
 		case strings.Contains(problems[0], "stalled"):
 			class = "honest-run-stalled"
+		case strings.Contains(problems[0], "keeps failing"):
+			class = "honest-settle-failed"
 		case strings.Contains(problems[0], "refused"):
 			class = "honest-call-refused"
 		case strings.Contains(problems[0], "funding took"):
